@@ -108,18 +108,19 @@ def summary(ck, ctx, rule="summary"):
     cfg = ctx.cfg(b)
     R = ctx.res(b)
     ck.functions.add(b.nname)
-    # switch on the Some payload with arm 0
+    # the test of the Some payload against 0, in whichever source form (match arm `Some(0)`, `if n == 0`, `if n != 0`, ..)
+    def is_count(s):
+        return s[0] == "field" and s[2] == "0" and strip(s[1])[0] == "downcast" and strip(s[1])[2] == "Some" and any(c[1] == "run::build" for c in calls_in(s))
+
+    z_edges, nz_edges = C.zero_test_edges(ctx, b, is_count)
     done = False
-    for sbb, st, e in Q.switches(ctx, b):
-        s = strip(e)
-        if s[0] == "field" and s[2] == "0" and strip(s[1])[0] == "downcast" and strip(s[1])[2] == "Some" and any(c[1] == "run::build" for c in calls_in(s)):
-            zero_t = [t for v, t in st["arms"] if v == 0]
-            if not zero_t:
-                continue
+    for sbb in sorted({x for x, _ in z_edges}):
+        st = b.blocks[sbb]["term"]
+        if True:
+            zero_t = [t for (x, lab) in z_edges if x == sbb for t in cfg.edge_targets(x, lab)]
+            other_t = [t for (x, lab) in nz_edges if x == sbb for t in cfg.edge_targets(x, lab)]
             done = True
-            same = sorted(v for v, t in st["arms"] if t in zero_t)
-            ck.ob(rule, "zero-arm-exact", same == [0] and st["otherwise"] not in zero_t, "the arm taken for count 0 is taken for no other count (values %s)" % same, span=st.get("loc"), fn=b.nname)
-            other_t = [t for v, t in st["arms"] if t not in zero_t] + [st["otherwise"]]
+            ck.ob(rule, "zero-arm-exact", bool(zero_t) and bool(other_t) and not set(zero_t) & set(other_t), "the branch taken for count 0 is taken for no other count", span=st.get("loc"), fn=b.nname)
 
             def strings_from(starts, avoid):
                 r = cfg.reach_avoid(starts, avoid_blocks=avoid)
